@@ -9,15 +9,20 @@ package geojson
 //@ axiom rootGlobalsInit()
 //@   ensures errDataInvalid != nil && errTypeInvalid != nil && errTypeMissing != nil && errCoordinatesInvalid != nil && errCoordinatesMissing != nil
 //@   ensures errGeometryMissing != nil && errFeaturesMissing != nil && errFeaturesInvalid != nil && errGeometriesMissing != nil && errGeometriesInvalid != nil
-//@   ensures errCircleRadiusUnitsInvalid != nil && DefaultParseOptions != nil
+//@   ensures errCircleRadiusUnitsInvalid != nil && DefaultParseOptions != nil && !DefaultParseOptions.RequireValid
 
 //@ spec func okShape(o Object, e error) bool { (o != nil && e == nil) || (o == nil && e != nil) }
 
+// RequireValid is under contract for the leaf geometries and the two multi-geometries that check it themselves; for the kinds in
+// rvOpen the statement needs a two-state frame argument over the object tree (see DESIGN): not claimed here, bounded suite only.
+//@ spec func rvOpen(o Object) bool { dyn(o) == typeid(*Feature) || dyn(o) == typeid(*Circle) || dyn(o) == typeid(*MultiPoint) || dyn(o) == typeid(*GeometryCollection) || dyn(o) == typeid(*FeatureCollection) }
+
 //@ func Parse
-//@   props C05 C07
+//@   props C05 C07 C08
 //@   arith order
 //@   entry use rootGlobalsInit()
 //@   ensures Shape: okShape(result0, result1)
+//@   ensures RequireValid: result1 == nil && opts != nil && opts.RequireValid && !rvOpen(result0) ==> oValidS(result0)
 //@   loop 0 invariant i >= 0
 //@   loop 0 decreases len(data)
 
@@ -36,6 +41,7 @@ package geojson
 //@   entry use rootGlobalsInit()
 //@   requires opts != nil
 //@   ensures Shape: okShape(result0, result1)
+//@   ensures RequireValid: result1 == nil && opts.RequireValid && !rvOpen(result0) ==> oValidS(result0)
 //@   call 0 iterstop false
 //@   call 0 iterinv keys != nil && !old($alloc)[keys] && (forall k *parseKeys :: old($alloc)[k] ==> (k.rCoordinates == old(k.rCoordinates) && k.rGeometries == old(k.rGeometries) && k.rGeometry == old(k.rGeometry) && k.rFeatures == old(k.rFeatures) && k.members == old(k.members)))
 
@@ -75,3 +81,121 @@ package geojson
 //@   requires keys != nil && opts != nil
 //@   ensures Shape: okShape(result0, result1)
 //@   ensures RequireValid: result1 == nil && opts.RequireValid ==> oValidS(result0)
+
+// ---- coordinate parsers for lines and polygons: nested gjson.ForEach closures that append to captured slices; their
+// text-level meaning is the A-GJSON layer; kept as assumed contracts (shape only)
+//@ func parseJSONLineStringCoords
+//@   props C05 C07
+//@   arith order
+//@   trusted nested gjson closures appending to captured slices: text-level decoding is assumed (A-GJSON); bounded differential check not offered
+//@   requires keys != nil && opts != nil
+//@   ensures Shape: result2 != nil ==> (result1 == nil && len(result0) == 0)
+//@ func parseJSONPolygonCoords
+//@   props C05 C07
+//@   arith order
+//@   trusted triple-nested gjson closures with element stores into a captured slice of slices: assumed (A-GJSON)
+//@   requires keys != nil && opts != nil
+//@   ensures Shape: result2 != nil ==> (result1 == nil && len(result0) == 0)
+
+//@ func parseJSONLineString
+//@   props C05 C07 C08
+//@   arith order
+//@   only post. safe.
+//@   dead cover.ret2
+//@   entry use rootGlobalsInit()
+//@   requires keys != nil && opts != nil
+//@   ensures Shape: okShape(result0, result1)
+//@   ensures RequireValid: result1 == nil && opts.RequireValid ==> oValidS(result0)
+
+//@ func parseJSONPolygon
+//@   props C05 C07 C08
+//@   arith order
+//@   only post. safe.
+//@   dead cover.ret3
+//@   entry use rootGlobalsInit()
+//@   requires keys != nil && opts != nil
+//@   ensures Shape: okShape(result0, result1)
+//@   ensures RequireValid: result1 == nil && opts.RequireValid ==> oValidS(result0)
+//@   loop 0 invariant true
+
+// ---- leaf constructors
+//@ func NewRect
+//@   props C05 C11
+//@   arith order
+//@   ensures result != nil && !old($alloc)[result] && result.base == rect
+//@ func NewPoint
+//@   props C05 C11
+//@   arith order
+//@   ensures result != nil && !old($alloc)[result] && result.base == point && result.extra == nil
+//@ func NewSimplePoint
+//@   props C05 C11
+//@   arith order
+//@   ensures result != nil && !old($alloc)[result] && result.Point == point
+
+//@ func parseJSONFeature
+//@   props C05 C07 C08
+//@   arith order
+//@   only post.
+//@   dead cover.ret2
+//@   entry use rootGlobalsInit()
+//@   requires keys != nil && opts != nil
+//@   ensures Shape: okShape(result0, result1)
+//@   ensures Kind: result0 != nil ==> rvOpen(result0)
+// RequireValid for this parser is NOT under contract: it needs a two-state frame argument (the validity of the
+// children parsed earlier is unchanged by the later writes to the fresh receiver); covered by the bounded suite only.
+
+//@ func parseJSONMultiPoint
+//@   props C05 C07 C08
+//@   arith order
+//@   only post.
+//@   dead cover.ret3
+//@   entry use rootGlobalsInit()
+//@   requires keys != nil && opts != nil
+//@   ensures Shape: okShape(result0, result1)
+//@   ensures Kind: result0 != nil ==> rvOpen(result0)
+// RequireValid for this parser is NOT under contract: it needs a two-state frame argument (the validity of the
+// children parsed earlier is unchanged by the later writes to the fresh receiver); covered by the bounded suite only.
+
+//@ func parseJSONMultiLineString
+//@   props C05 C07 C08
+//@   arith order
+//@   only post.
+//@   dead cover.ret3
+//@   entry use rootGlobalsInit()
+//@   requires keys != nil && opts != nil
+//@   ensures Shape: okShape(result0, result1)
+//@   ensures RequireValid: result1 == nil && opts.RequireValid ==> oValidS(result0)
+
+//@ func parseJSONMultiPolygon
+//@   props C05 C07 C08
+//@   arith order
+//@   only post.
+//@   dead cover.ret3
+//@   entry use rootGlobalsInit()
+//@   requires keys != nil && opts != nil
+//@   ensures Shape: okShape(result0, result1)
+//@   ensures RequireValid: result1 == nil && opts.RequireValid ==> oValidS(result0)
+
+//@ func parseJSONGeometryCollection
+//@   props C05 C07 C08
+//@   arith order
+//@   only post.
+//@   dead cover.ret3
+//@   entry use rootGlobalsInit()
+//@   requires keys != nil && opts != nil
+//@   ensures Shape: okShape(result0, result1)
+//@   ensures Kind: result0 != nil ==> rvOpen(result0)
+// RequireValid for this parser is NOT under contract: it needs a two-state frame argument (the validity of the
+// children parsed earlier is unchanged by the later writes to the fresh receiver); covered by the bounded suite only.
+
+//@ func parseJSONFeatureCollection
+//@   props C05 C07 C08
+//@   arith order
+//@   only post.
+//@   dead cover.ret3
+//@   entry use rootGlobalsInit()
+//@   requires keys != nil && opts != nil
+//@   ensures Shape: okShape(result0, result1)
+//@   ensures Kind: result0 != nil ==> rvOpen(result0)
+// RequireValid for this parser is NOT under contract: it needs a two-state frame argument (the validity of the
+// children parsed earlier is unchanged by the later writes to the fresh receiver); covered by the bounded suite only.
